@@ -1,0 +1,10 @@
+//go:build !verif
+
+package server
+
+// Verification hooks (build tag "verif"). With the tag off these are empty
+// inlinable functions and change nothing.
+
+func verifPoint(_ string, _ interface{}, _ interface{}) {}
+
+func verifManualClock() bool { return false }
